@@ -160,7 +160,7 @@ def build_template(ctx, spec, absent_outputs=False):
         raise RuntimeError(f'xvc init failed: {err}')
     os.makedirs(sb.path('.ctl'))
     n = spec['n']
-    need_out = {j for (_, j, k) in spec['edges'] if k in ('file', 'glob')}
+    need_out = {j for (_, j, k) in spec['edges'] if k in ('file', 'glob', 'globi')}
     for j in need_out:
         os.makedirs(os.path.dirname(sb.path(out_path(j))), exist_ok=True)
         if not absent_outputs:
@@ -191,6 +191,8 @@ def build_template(ctx, spec, absent_outputs=False):
                 args += ['--file', out_path(j)]
             elif k == 'glob':
                 args += ['--glob', f'out/s{j}/*.txt']
+            elif k == 'globi':
+                args += ['--glob_items', f'out/s{j}/*.txt']
         if spec['inputs'][i]:
             args += ['--file', in_path(i)]
         if args:
@@ -268,7 +270,7 @@ def run_case(ctx, case, hook=False, timeout=20, keep=False):
         env['XVC_VERIF_TRACE'] = trace_path
         if case.get('sched'):
             env['XVC_VERIF_SCHED'] = case['sched']
-    need_out = {j for (_, j, k) in spec['edges'] if k in ('file', 'glob')}
+    need_out = {j for (_, j, k) in spec['edges'] if k in ('file', 'glob', 'globi')}
     for i in range(spec['n']):
         b = case['behav'][i]
         lines = [f'sleep_ms {b["sleep_ms"]}', f'rc {b["rc"]}', f'out {b["out"]}', f'err {b["err"]}']
@@ -445,7 +447,7 @@ def driver_input(case, trace, cid):
     for i in range(spec['n']):
         if spec['inputs'][i]:
             L.append(f'dep {i} file {in_path(i)}')
-    for j in sorted({j for (_, j, k) in spec['edges'] if k in ('file', 'glob')}):
+    for j in sorted({j for (_, j, k) in spec['edges'] if k in ('file', 'glob', 'globi')}):
         L.append(f'out {j} {out_path(j)}')
     L.append('trace-begin')
     L += trace
@@ -485,7 +487,7 @@ def signature(case, f):
     elif f['clause'] == 'pool':
         sig['kind'] = 'pool-exceeded'
     elif f['clause'] in ('order', 'downstream'):
-        sig['kind'] = 'glob-dependency-on-absent-output' if case.get('absent_outputs') and any(k == 'glob' for (_, _, k) in spec['edges']) else 'order'
+        sig['kind'] = 'glob-dependency-on-absent-output' if case.get('absent_outputs') and any(k in ('glob', 'globi') for (_, _, k) in spec['edges']) else 'order'
     elif f['clause'] == 'cycle':
         sig['kind'] = 'cycle'
     else:
@@ -623,6 +625,9 @@ def run_family(ctx, stream, cases, own, hook=False, timeout=20, workers=8, valid
             if a is None:
                 continue
             st['traces_validated'] += 1
+            if a.startswith('valid') and not case.get('missing') and any(len(l.split(' ')) > 1 and l.split(' ')[1] == 'D' for l in o['trace']):
+                a = 'invalid at=' + next(l.split(' ')[0] for l in o['trace'] if len(l.split(' ')) > 1 and l.split(' ')[1] == 'D') + \
+                    ' reason=unexpected-thread-failure (the case has no missing dependency file; `die` steps model handler errors only)'
             if not a.startswith('valid'):
                 st['trace_disagreements'] += 1
                 if st['trace_disagreements'] <= 3:
@@ -668,7 +673,8 @@ def describe(case):
         elif k == 'file':
             L.append(f'xvc pipeline step output -s s{j} --output-file {out_path(j)}; xvc pipeline step dependency -s s{a} --file {out_path(j)}')
         else:
-            L.append(f'xvc pipeline step output -s s{j} --output-file {out_path(j)}; xvc pipeline step dependency -s s{a} --glob "out/s{j}/*.txt"')
+            opt = '--glob' if k == 'glob' else '--glob_items'
+            L.append(f'xvc pipeline step output -s s{j} --output-file {out_path(j)}; xvc pipeline step dependency -s s{a} {opt} "out/s{j}/*.txt"')
     for i in range(spec['n']):
         if spec['inputs'][i]:
             L.append(f'xvc pipeline step dependency -s s{i} --file {in_path(i)}' + ('   # file deleted before the run' if i in case.get('missing', []) else ''))
